@@ -269,6 +269,13 @@ func structured(kind string, n, param int) ([][]int, error) {
 				adj[i] = append(adj[i], i+1)
 			}
 		}
+	case "broom": // node 0 points to every other node (out-degree n-1, beyond 65536 for the largest sizes); node 1 to node 2
+		for i := 1; i < n; i++ {
+			adj[0] = append(adj[0], i)
+		}
+		if n > 2 {
+			adj[1] = append(adj[1], 2)
+		}
 	case "reversed-path": // high ids first: node n-1 is the root
 		for i := n - 1; i > 0; i-- {
 			adj[i] = []int{i - 1}
